@@ -13,6 +13,9 @@ from contracts.hspec import VQ_LINE
 from . import handlers_common as hc, handlers_native as hn
 
 PROP = "C19"
+# C19 = "every version conforms to the shared specification" (the C04/C06/C07/C10 clauses of the handler units) + "the specifications
+# the versions resolve to are equal": a conformance failure of one version is a C19 failure too
+ALSO_PROPERTY = ("C04", "C06", "C07", "C10")
 MIN_OBLIGATIONS = 200
 TRUSTED = hc.HANDLER_TRUSTED + ["the derivation of contracts from leaf specifications (contracts/hspec.py) mirrors the decorators: "
                                 "checked by proving every derived contract on the real function"]
@@ -119,3 +122,12 @@ def bounded(world, tier, seed, rep):
             bad = {"versions": [a, b], "history": steps, "observed": f"{res[0]} vs {res[1]}"}
     return {"label": "bounded", "scope": f"{budget} random histories (<= 8 lines, types of the older version) x version pairs of one major line",
             "evaluations": n, "native_failure": bad}
+
+
+def rebuild_inlined(world, failing_helpers):
+    """Stale helper clauses: re-prove with the bodies of the functions whose helper clauses failed inlined into their callers."""
+    bad = {h["unit"].split("[")[0] for h in failing_helpers}
+    units = build(world)
+    for u in units:
+        u.no_contract_for = tuple(bad)
+    return units
